@@ -383,6 +383,24 @@ struct TC8 {
 #endif
 };
 
+// over-aligned trivially copyable element (16 bytes, 16-byte aligned): a misplaced inline slot is a misaligned access for UBSan
+struct alignas(16) TC16A {
+  int32_t key;
+  uint32_t pay;
+  TC16A() = default;
+  TC16A(int k, unsigned p) : key(k), pay(p) {}
+  explicit TC16A(const TC16A *p) : key(p->key), pay(p->pay) {}
+  bool operator==(const TC16A &o) const { return key == o.key; }
+  bool operator!=(const TC16A &o) const { return key != o.key; }
+  bool operator<(const TC16A &o) const { return key < o.key; }
+  bool operator>(const TC16A &o) const { return key > o.key; }
+  bool operator<=(const TC16A &o) const { return key <= o.key; }
+  bool operator>=(const TC16A &o) const { return key >= o.key; }
+#if __cplusplus >= 202002L
+  std::strong_ordering operator<=>(const TC16A &o) const { return key <=> o.key; }
+#endif
+};
+
 // narrow keys without payload (1 and 2 bytes): code that depends on sizeof(T) (thresholds counted in elements per cache line, ...)
 struct K1 {
   uint8_t k;
@@ -461,6 +479,14 @@ struct EI<TC8> {
   static Val norm(Val v) { return v; }
 };
 
+template <>
+struct EI<TC16A> {
+  typedef TC16A E;
+  static const bool kTracked = false, kRelocatable = true, kCopyable = true;
+  static const char *name() { return "TC16A"; }
+  static Val val(const E &e) { return Val(e.key, e.pay); }
+  static Val norm(Val v) { return v; }
+};
 template <>
 struct EI<K1> {
   typedef K1 E;
